@@ -71,8 +71,20 @@ type Escape struct {
 	Via    string // "store" or "return"
 }
 
+// Retain records that a function keeps a reference derived from one of its parameters in memory that outlives the
+// call: another parameter's (typically the receiver's) memory or a package-level variable.
+type Retain struct {
+	Param int    // index of the parameter (receiver first) the retained reference derives from
+	Into  Root   // the memory it is stored into
+	Type  types.Type
+	Fn    *ssa.Function
+	Ins   ssa.Instruction
+	Via   string
+}
+
 // Summary is the effect summary of one function.
 type Summary struct {
+	Retains map[string]Retain
 	// ArgRoots: per call instruction of the function, the provenance roots of each argument
 	ArgRoots map[ssa.CallInstruction][][]Root
 	Escapes  map[string]Escape
@@ -453,6 +465,50 @@ func (st *funcState) hold(into rootSet, val rootSet) bool {
 	return ch
 }
 
+// retain records parameter-derived references (val) stored into memory rooted at another parameter or a global.
+func (st *funcState) retain(val, into rootSet, t types.Type, ins ssa.Instruction, via string) bool {
+	ch := false
+	for r := range val {
+		if r.Kind != "param" {
+			continue
+		}
+		for in := range into {
+			if !(in.Kind == "global" || in.Kind == "param" && in.Name != r.Name) {
+				continue
+			}
+			if st.sum.Retains == nil {
+				st.sum.Retains = map[string]Retain{}
+			}
+			k := fmt.Sprintf("%s>%s#%d", r.Name, in.String(), ordinal(ins))
+			if _, ok := st.sum.Retains[k]; !ok {
+				var i int
+				fmt.Sscan(r.Name, &i)
+				st.sum.Retains[k] = Retain{Param: i, Into: in, Type: t, Fn: st.fn, Ins: ins, Via: via}
+				ch = true
+			}
+		}
+	}
+	return ch
+}
+
+// RetainsOf lists what fn keeps of its parameters, sorted by key.
+func (a *Analysis) RetainsOf(fn *ssa.Function) []Retain {
+	sum := a.Sums[fn]
+	if sum == nil {
+		return nil
+	}
+	var ks []string
+	for k := range sum.Retains {
+		ks = append(ks, k)
+	}
+	sort.Strings(ks)
+	var out []Retain
+	for _, k := range ks {
+		out = append(out, sum.Retains[k])
+	}
+	return out
+}
+
 var fresh = rootSet{Root{"fresh", ""}: true}
 
 func (st *funcState) visit(ins ssa.Instruction) bool {
@@ -540,6 +596,9 @@ func (st *funcState) visit(ins ssa.Instruction) bool {
 			// a function value taken from a package-level table is code, not storage: no alias
 			if _, isFunc := x.Val.Type().Underlying().(*types.Signature); !isFunc {
 				st.escape(vr, rs, x, "store")
+			}
+			if st.retain(vr, rs, x.Val.Type(), x, "store") {
+				ch = true
 			}
 		}
 	case *ssa.MapUpdate:
@@ -669,6 +728,11 @@ func (st *funcState) visitCall(call ssa.CallInstruction, val ssa.Value) bool {
 		}
 		for r := range cs.Returns {
 			res.add(mapRoot(r))
+		}
+		for _, rt := range cs.Retains {
+			if st.retain(argRoots(rt.Param), mapRoot(rt.Into), rt.Type, call, "call "+callee.String()) {
+				ch = true
+			}
 		}
 	}
 	if ext != "" && !strings.HasPrefix(ext, "invoke:") {
